@@ -315,6 +315,7 @@ fn eval_err_to_stacktrace(path: &Path, func: Option<&str>, error: EvalError)
         EvalError::ValidateArgsFailed{source} |
         EvalError::DeclareFunctionFailed{source} |
         EvalError::EvalBlockFailed{source} |
+        EvalError::EvalReturnExprFailed{source} |
         EvalError::EvalStmtFailed{source} |
         EvalError::EvalBinOpLhsFailed{source} |
         EvalError::EvalBinOpRhsFailed{source} |
